@@ -2253,7 +2253,7 @@ def run(ck):
         disagreements.append((dict(c_, tree=('leaf', 0)), d_))
     disagreements += real_runtime_cases(
         ck, rng, 60 if thorough else 9, tables,
-        int(os.environ.get('C11_RT_WAIT', 900 if thorough else 45)))
+        int(os.environ.get('C11_RT_WAIT', 900 if thorough else 15)))
 
     for case, d in disagreements[:5]:
         ck.violation(
